@@ -139,7 +139,7 @@ def check_c14(tier, seed, t0):
     o1 = kx_leg(agg, "c14", mode, "rel", "C14")
     o2 = kx_leg(agg, "c14", "boundary", "chk", "C14")
     # all handles issued in explored histories (conversion laws + HashSet cardinality inside hx)
-    hx = check_hx_props("C14", tier, [props.hx_leg("SB", props=["C14"]), props.hx_leg("SA", props=["C14"])])
+    hx = check_hx_props("C14", tier, [props.hx_leg("SB", props=["C14"]), props.hx_leg("SA", props=["C14"]), props.hx_leg("POP", sizes=[65537, 1048577])])
     for k in ("states", "transitions", "executions"):
         agg[k] += hx[k]
     agg["legs"] += hx["legs"]
